@@ -105,7 +105,7 @@ func main() {
 	// counts do not depend on the machine): no new stream task is started after
 	// streamBudget, no new channel depth after chanBudget when the projected time
 	// of the level would not fit.  A cap sets exhaustive=false and is reported.
-	streamBudget, chanBudget := 6*time.Minute, 13*time.Minute+30*time.Second
+	streamBudget, chanBudget := 7*time.Minute, 13*time.Minute+30*time.Second
 
 	// (a) man in the middle, lying endpoints
 	t0 := time.Now()
